@@ -42,7 +42,32 @@ Obs0 == [cnt |-> 0, n |-> 0, mem |-> 0]
 \* g.born   - key -> instance that executed the put defining latest[key]
 \* g.zombie - key -> entry: removed by a remove() that answered FALSE in a later instance than the put
 \* g.nexp / g.bexp - number / bytes of short-TTL puts since the counters were last reset
-G0 == [inst |-> 1, born |-> EmptyFn, zombie |-> EmptyFn, nexp |-> 0, bexp |-> 0]
+\* g.poison - F10g: a disk put panicked inside the index lock of the current instance
+\* g.orphan - F10g: key -> [h, n] of the value such a put had already moved into place on disk
+G0 == [inst |-> 1, born |-> EmptyFn, zombie |-> EmptyFn, nexp |-> 0, bexp |-> 0, poison |-> FALSE, orphan |-> EmptyFn]
+
+(***************************************************************************)
+(* Dev_F10f (MemoryCacheEntryInner::new: `now + ttl`): signature: memory   *)
+(* cache, a put whose TTL is Duration::MAX (put_with_ttl, or put with that *)
+(* default_ttl) panics; nothing else changes.                              *)
+(* Dev_F10g (DiskCacheEntry::new: `now + ttl` inside the index lock):      *)
+(* signature: disk cache, a put whose TTL is Duration::MAX panics AFTER    *)
+(* its file was moved into place; from then on every call of THAT instance *)
+(* that needs the index reports an error (poisoned lock); a later instance *)
+(* finds the file and serves exactly the value of the panicked put.        *)
+(***************************************************************************)
+IsPanic(r)     == "outcome" \in DOMAIN r
+IsError(r)     == "err" \in DOMAIN r
+Poisoned       == Known("F10g") /\ cfg.kind = "disk" /\ g.poison
+OrphanHit(k, isValue, r) ==
+  /\ Known("F10g") /\ cfg.kind = "disk" /\ k \in DOMAIN g.orphan
+  /\ (isValue => r = HitOf(g.orphan[k]))
+PutClass(e) ==
+  IF ResOk(s, cfg, e) THEN "ok"          \* done, or refused with an error
+  ELSE IF ~IsPanic(e.res) \/ ClassOf(cfg, e) # "max" THEN "bad"
+  ELSE IF cfg.kind = "mem" /\ Known("F10f") THEN "F10f"
+  ELSE IF cfg.kind = "disk" /\ Known("F10g") /\ ~g.poison THEN "F10g"
+  ELSE "bad"
 
 (***************************************************************************)
 (* Dev_F10b (DiskCache::get fallback): a get of a key the index does not   *)
@@ -59,18 +84,27 @@ PosClass(k, isValue, r) ==       \* a positive answer about k: a value r, or con
           /\ (isValue => r = HitOf(s.latest[k])) THEN "F10b"
   ELSE IF /\ Known("F10d") /\ cfg.kind = "disk" /\ ~Has(s, k) /\ k \in DOMAIN g.zombie
           /\ (isValue => r = HitOf(g.zombie[k])) THEN "F10d"
+  ELSE IF OrphanHit(k, isValue, r) THEN "F10g"
   ELSE "bad"
 GetClass(k, r) ==
-  IF GetOk(s, cfg, k, r) THEN "ok" ELSE IF IsHit(r) THEN PosClass(k, TRUE, r) ELSE "bad"
+  IF GetOk(s, cfg, k, r) THEN "ok"
+  ELSE IF IsHit(r) THEN PosClass(k, TRUE, r)
+  ELSE IF Poisoned /\ IsError(r) THEN "F10g"
+  ELSE "bad"
 
 ResClasses(e) ==     \* the set of classes of the answers given by event e
   CASE e.op = "get"      -> {GetClass(e.k, e.res)}
     [] e.op = "probe"    -> IF IsFailure(e.res) \/ ~("vals" \in DOMAIN e.res) THEN {"bad"}
                             ELSE {GetClass(k, e.res.vals[k]) : k \in DOMAIN e.res.vals}
     [] e.op = "contains" -> IF ContainsOk(s, cfg, e.k, e.res) THEN {"ok"}
-                            ELSE IF ~IsFailure(e.res) /\ "b" \in DOMAIN e.res THEN {PosClass(e.k, FALSE, <<>>)} ELSE {"bad"}
+                            ELSE IF ~IsFailure(e.res) /\ "b" \in DOMAIN e.res THEN {PosClass(e.k, FALSE, <<>>)}
+                            ELSE IF Poisoned /\ IsError(e.res) THEN {"F10g"} ELSE {"bad"}
     [] e.op = "remove"   -> IF RemoveOk(s, cfg, e.k, e.res) THEN {"ok"}
-                            ELSE IF ~IsFailure(e.res) /\ Known("F10d") /\ e.k \in DOMAIN g.zombie THEN {"F10d"} ELSE {"bad"}
+                            ELSE IF ~IsFailure(e.res) /\ Known("F10d") /\ e.k \in DOMAIN g.zombie THEN {"F10d"}
+                            ELSE IF ~IsFailure(e.res) /\ OrphanHit(e.k, FALSE, <<>>) THEN {"F10g"}
+                            ELSE IF Poisoned /\ IsError(e.res) THEN {"F10g"} ELSE {"bad"}
+    [] IsPut(e)          -> {PutClass(e)}
+    [] e.op = "clear"    -> IF ResOk(s, cfg, e) THEN {"ok"} ELSE IF Poisoned /\ IsError(e.res) THEN {"F10g"} ELSE {"bad"}
     [] OTHER             -> IF ResOk(s, cfg, e) THEN {"ok"} ELSE {"bad"}
 
 (***************************************************************************)
@@ -101,6 +135,7 @@ ByteClass(e, o) ==
 (***************************************************************************)
 BooksClass(e, o) ==
   IF e.op # "probe" \/ IsFailure(e.res) \/ ~("vals" \in DOMAIN e.res) THEN "ok"
+  ELSE IF \E k \in DOMAIN e.res.vals : IsFailure(e.res.vals[k]) THEN "ok"   \* no quiescent point (already judged by ResClasses)
   ELSE IF BooksOk(e.res.vals, o) THEN "ok"
   ELSE LET hk == HitKeys(e.res.vals)
            c  == Cardinality(hk)
@@ -113,17 +148,21 @@ BooksClass(e, o) ==
 \* ---- ghosts of the deviation signatures -----------------------------------------
 GhostAfter(e) ==
   LET ok == ~IsFailure(e.res) IN
-  CASE IsPut(e) /\ ok ->
+  CASE IsPut(e) /\ IsPanic(e.res) /\ cfg.kind = "disk" /\ ClassOf(cfg, e) = "max" ->
+         [g EXCEPT !.poison = TRUE, !.orphan = FnWith(g.orphan, e.k, [h |-> e.vh, n |-> e.n])]
+    [] IsPut(e) /\ ok ->
          [g EXCEPT !.born = FnWith(g.born, e.k, g.inst), !.zombie = FnWithout(g.zombie, e.k),
-                   !.nexp = IF ClassOf(cfg, e) = "short" THEN g.nexp + 1 ELSE g.nexp,
-                   !.bexp = IF ClassOf(cfg, e) = "short" THEN g.bexp + e.n ELSE g.bexp]
+                   !.orphan = FnWithout(g.orphan, e.k),
+                   !.nexp = IF ClassOf(cfg, e) \notin TtlNever THEN g.nexp + 1 ELSE g.nexp,
+                   !.bexp = IF ClassOf(cfg, e) \notin TtlNever THEN g.bexp + e.n ELSE g.bexp]
     [] e.op = "remove" /\ ok /\ "b" \in DOMAIN e.res ->
-         IF e.res.b THEN [g EXCEPT !.born = FnWithout(g.born, e.k), !.zombie = FnWithout(g.zombie, e.k)]
+         IF e.res.b THEN [g EXCEPT !.born = FnWithout(g.born, e.k), !.zombie = FnWithout(g.zombie, e.k),
+                                   !.orphan = FnWithout(g.orphan, e.k)]
          ELSE IF Has(s, e.k) /\ cfg.kind = "disk" /\ g.born[e.k] < g.inst
               THEN [g EXCEPT !.born = FnWithout(g.born, e.k), !.zombie = FnWith(g.zombie, e.k, s.latest[e.k])]
               ELSE [g EXCEPT !.born = FnWithout(g.born, e.k)]
-    [] e.op = "clear"   -> [g EXCEPT !.born = EmptyFn, !.zombie = EmptyFn, !.nexp = 0, !.bexp = 0]
-    [] e.op = "restart" -> [g EXCEPT !.inst = g.inst + 1, !.nexp = 0, !.bexp = 0]
+    [] e.op = "clear" /\ ok -> [g EXCEPT !.born = EmptyFn, !.zombie = EmptyFn, !.nexp = 0, !.bexp = 0, !.orphan = EmptyFn]
+    [] e.op = "restart" -> [g EXCEPT !.inst = g.inst + 1, !.nexp = 0, !.bexp = 0, !.poison = FALSE]
     [] OTHER            -> g
 
 MaxListed == 200
@@ -131,6 +170,9 @@ AddDevs(d, used, line) ==
   [f \in DOMAIN d \cup used |->
      IF f \in used THEN (IF f \in DOMAIN d THEN [d[f] EXCEPT !.n = @ + 1] ELSE [n |-> 1, first |-> line]) ELSE d[f]]
 AddViol(v, line) == IF Len(v) < MaxListed THEN Append(v, line) ELSE v
+
+NewBad(e) == \/ "outcome" \in DOMAIN e.res
+             \/ IsFailure(e.res) /\ e.cfg.maxe >= 1 /\ e.cfg.dttl \in {"none", "long", "short"}
 
 TInit == /\ l = 1 /\ s = C0 /\ cfg = Cfg0 /\ seq = 0 /\ pre = Obs0 /\ g = G0
          /\ viol = <<>> /\ nviol = 0 /\ devs = EmptyFn
@@ -140,9 +182,10 @@ Step ==
   /\ LET e == Rec[l] IN
      IF e.op = "new" THEN
         /\ s' = C0 /\ cfg' = e.cfg /\ seq' = 0 /\ pre' = Obs0 /\ g' = G0
-        \* every generated configuration is valid (max_entries >= 1): it must be accepted
-        /\ viol' = IF IsFailure(e.res) /\ e.cfg.maxe >= 1 THEN AddViol(viol, l) ELSE viol
-        /\ nviol' = IF IsFailure(e.res) /\ e.cfg.maxe >= 1 THEN nviol + 1 ELSE nviol
+        \* every generated configuration is valid (max_entries >= 1): it must be accepted.  (A boundary
+        \* default_ttl - zero, 1 ns, Duration::MAX - may be refused with an error, never with a panic.)
+        /\ viol' = IF NewBad(e) THEN AddViol(viol, l) ELSE viol
+        /\ nviol' = IF NewBad(e) THEN nviol + 1 ELSE nviol
         /\ devs' = devs
      ELSE IF e.op = "hang" THEN     \* the call never returned (driver watchdog); the run ends here
         /\ viol' = AddViol(viol, l) /\ nviol' = nviol + 1
